@@ -157,10 +157,12 @@ pub fn brace_reference(term: &str, max_nest: usize, max_alts: usize, max_groups:
 }
 
 fn range_reference(m: i32, n: i32, s: Option<u32>) -> Vec<String> {
-    let step = match s {
+    // (exact arithmetic: the bounds may sit at the ends of the 32-bit range)
+    let step: i64 = match s {
         None | Some(0) => 1,
-        Some(x) => x as i32,
+        Some(x) => x as i64,
     };
+    let (m, n) = (m as i64, n as i64);
     let mut out = Vec::new();
     let mut v = m;
     if m <= n {
@@ -396,6 +398,25 @@ pub fn run(ctx: &Ctx) -> Value {
                     }
                 }
             }
+        }
+    }
+    // bounds at the ends of the 32-bit range (short ranges only), steps up to the largest 32-bit value
+    let edge = [i32::MAX - 1, i32::MAX, i32::MIN, i32::MIN + 1, 0, 1, -1];
+    for m in edge {
+        for n in edge {
+            if (m as i64 - n as i64).abs() > 2 {
+                continue;
+            }
+            for s in [None, Some(1u32), Some(2), Some(2147483647)] {
+                for template in [0usize, 1] {
+                    cases.push(Case::Range { m, n, s, pre: "", post: "", template });
+                }
+            }
+        }
+    }
+    for m in [0, 1, -1, 5] {
+        for n in [0, 1, -1, 5] {
+            cases.push(Case::Range { m, n, s: Some(2147483647), pre: "p", post: "", template: 0 });
         }
     }
     for w in ["~", "~/x", "a~", "x/~", "'~'", "\"~\"", "\"~/x\"", "'~/x'", "~/", "~/a b"] {
